@@ -97,6 +97,38 @@ Section PipelinePickled.
   Hypothesis world_calls : calls_ok w.
   Hypothesis json_roundtrip : forall d cc, dump d = Some cc -> parse cc = Some d.
 
+  (* with C14's propositional [delta_ok] *)
+  Theorem patch_reproduces_json_pickled_ok :
+    forall pos keep (A B P : FsModel.path) (f : FsModel.fs op) ca a b pd,
+      f A = Some ca -> parse ca = Some a -> FsModel.load parse f B = Some b ->
+      P <> A -> P <> FsModel.bak A ->
+      is_json a = true -> is_json b = true -> wf a = true -> wf b = true ->
+      alias_free (atoms_of a ++ atoms_of b) ->
+      (ignore_private c = false \/ (nopriv a = true /\ nopriv b = true)) ->
+      let d := mk_delta_json hatom udiff ops c conv a b in
+      delta_ok d -> wfp (pv_of_delta d) = true -> types_ok w (pv_of_delta d) ->
+      FsModel.diff_cmd parse pickle_delta (mk_delta_json hatom udiff ops c conv) A B f = Some pd ->
+      exists b',
+        apply conv ro ao d a = (b', 0) /\
+        veqb b' b = true /\
+        forall cr, dump b' = Some cr ->
+          exists f',
+            FsModel.patch_cmd parse dump unpickle_delta (apply_delta_json conv ro ao) pos keep A P FsModel.no_fault
+                              (FsModel.upd P (Some pd) f) = (f', FsModel.Done) /\
+            FsModel.load parse f' A = Some b' /\
+            f' A = Some cr /\
+            f' (FsModel.bak A) = (if keep then Some ca else None) /\
+            (forall q, q <> A -> q <> FsModel.bak A -> q <> P -> f' q = f q).
+  Proof.
+    intros pos keep A B P f ca a b pd HA Hpa HB HPA HPb Ja Jb Wa Wb AF NP d Hok Hwf Hty Hdiff.
+    assert (Hpk : unpickle_delta (pickle_delta d) = Some d).
+    { unfold unpickle_delta, pickle_delta.
+      exact (reload_canonical_dump w d world_calls Hty Hwf Hok). }
+    exact (patch_reproduces_json_pair op parse dump pickle_delta unpickle_delta
+             hatom udiff ops c conv ro ao hatom_inj conv_typed conv_json ops_valid ro_valid ao_valid json_roundtrip
+             pos keep A B P f ca a b pd HA Hpa HB HPA HPb Ja Jb Wa Wb AF NP Hpk Hdiff).
+  Qed.
+
   Theorem patch_reproduces_json_pickled :
     forall pos keep (A B P : FsModel.path) (f : FsModel.fs op) ca a b pd,
       f A = Some ca -> parse ca = Some a -> FsModel.load parse f B = Some b ->
@@ -120,12 +152,8 @@ Section PipelinePickled.
             (forall q, q <> A -> q <> FsModel.bak A -> q <> P -> f' q = f q).
   Proof.
     intros pos keep A B P f ca a b pd HA Hpa HB HPA HPb Ja Jb Wa Wb AF NP d Hok Hwf Hty Hdiff.
-    assert (Hpk : unpickle_delta (pickle_delta d) = Some d).
-    { unfold unpickle_delta, pickle_delta.
-      exact (reload_canonical_dump w d world_calls Hty Hwf (delta_okb_sound d Hok)). }
-    exact (patch_reproduces_json_pair op parse dump pickle_delta unpickle_delta
-             hatom udiff ops c conv ro ao hatom_inj conv_typed conv_json ops_valid ro_valid ao_valid json_roundtrip
-             pos keep A B P f ca a b pd HA Hpa HB HPA HPb Ja Jb Wa Wb AF NP Hpk Hdiff).
+    exact (patch_reproduces_json_pickled_ok pos keep A B P f ca a b pd HA Hpa HB HPA HPb Ja Jb Wa Wb AF NP
+             (delta_okb_sound d Hok) Hwf Hty Hdiff).
   Qed.
 End PipelinePickled.
 
